@@ -33,6 +33,11 @@ VARIABLES pid,     \* which program
           steps
 semvars == <<pid, repl, stdin, ctl, kont, cur, envs, heap, ln, out, diags, natlog, status, why, steps>>
 
+(* Deliberately broken variants of single actions, switched on only by the sanity configurations
+   (`CONSTANT Broken <- ...`): TLC must then report an invariant violated - which shows that the invariants bite.
+   Each reproduces a defect the pinned tree had. *)
+Broken == {}
+
 P == ProgOf(pid)
 Node(p) == At(P, p)
 Kid(p, i) == Append(p, i)
@@ -78,6 +83,11 @@ Tick == steps' = steps + 1 /\ UNCHANGED <<pid, repl>>
 Quiet == UNCHANGED <<out, diags, natlog, stdin, status, why>>                  \* no observable effect, still running
 Goto(c, k) == ctl' = c /\ kont' = k
 RaiseAt(kind, line) ==
+  IF "ErrorDoesNotStop" \in Broken /\ ctl.m \in {"eval", "val"}
+  THEN /\ diags' = Append(diags, [kind |-> kind, ln |-> line]) /\ status' = "error"      \* reported, but evaluation carries on with nil
+       /\ ctl' = [m |-> "val", v |-> VNil] /\ kont' = (IF ctl.m = "val" THEN Tail(kont) ELSE kont)
+       /\ UNCHANGED <<cur, envs, heap, ln, out, natlog, stdin, why>>
+  ELSE
   /\ status' = "error" /\ diags' = Append(diags, [kind |-> kind, ln |-> line])
   /\ ctl' = [m |-> "halt"] /\ kont' = <<>>
   /\ UNCHANGED <<cur, envs, heap, ln, out, natlog, stdin, why>>
@@ -90,7 +100,7 @@ Finish(res, k) ==
   CASE res.r = "val" -> Goto([m |-> "val", v |-> res.v], k) /\ Quiet /\ UNCHANGED <<cur, envs, heap, ln>>
     [] res.r = "err" -> Raise(res.kind)
     [] res.r = "unspec" -> StopUnspec(res.why)
-Running == status = "run" /\ steps < MaxSteps
+Running == (status = "run" \/ ("ErrorDoesNotStop" \in Broken /\ status = "error" /\ ctl.m # "halt")) /\ steps < MaxSteps
 
 ---------------------------------------------------------------------------
 (* STATEMENTS *)
@@ -214,7 +224,8 @@ RECURSIVE Unwind(_, _, _)    \* [k: continuation with the handler on top (or <<>
 Unwind(k, s, env) ==
   IF k = <<>> THEN [k |-> k, env |-> env]
   ELSE LET fr == Head(k) IN
-       IF fr.f = "call" \/ (s # "return" /\ fr.f \in {"whileBody", "forBody"}) THEN [k |-> k, env |-> env]
+       IF fr.f = "call" \/ (s # "return" /\ fr.f \in {"whileBody", "forBody"})
+          \/ ("WhileSwallowsReturn" \in Broken /\ fr.f = "whileBody") THEN [k |-> k, env |-> env]
        ELSE Unwind(Tail(k), s, IF fr.f \in {"block", "forScope"} THEN fr.env ELSE env)
 
 Signal ==
@@ -226,7 +237,7 @@ Signal ==
           THEN /\ Goto([m |-> "val", v |-> ctl.v], Tail(u.k))                       \* reaches a call ends it with nil:
                /\ cur' = fr.env /\ ln' = fr.ln                                      \* FnAbsorbsLoopSignal)
                /\ Quiet /\ UNCHANGED <<envs, heap>>
-          ELSE IF ctl.s = "break"                                                   \* BreakLeavesInnermostLoop
+          ELSE IF ctl.s = "break" /\ ~("WhileSwallowsReturn" \in Broken /\ FALSE)     \* BreakLeavesInnermostLoop
           THEN Goto([m |-> "done"], Tail(u.k)) /\ cur' = restored /\ Quiet /\ UNCHANGED <<envs, heap, ln>>
           ELSE Goto([m |-> "done"], u.k) /\ cur' = restored /\ Quiet /\ UNCHANGED <<envs, heap, ln>>   \* continue = body done
   /\ Tick
@@ -304,6 +315,9 @@ InvokeNative(name, args, k) ==
        [] name = "remove" -> (IF ~IsArr(1) THEN Fail("native")
                               ELSE LET ix == IndexIn(args[2], Len(heap[args[1].r].e)) IN
                                    IF ix.r = "err" THEN Fail("native") ELSE IF ix.r = "unspec" THEN Stop(ix.why)
+                                   ELSE IF "RemoveShiftsInPlace" \in Broken
+                                   THEN /\ heap' = [heap EXCEPT ![args[1].r].e = DropAt(heap[args[1].r].e, ix.v) \o <<heap[args[1].r].e[Len(heap[args[1].r].e)]>>]
+                                        /\ Goto([m |-> "val", v |-> args[1]], k) /\ UNCHANGED <<out, stdin, status, diags, why, cur, envs, ln>>
                                    ELSE New([t |-> "arr", e |-> DropAt(heap[args[1].r].e, ix.v)], VArr))
        [] name = "delkey" -> (IF ~IsObj(1) \/ args[2].t # "str" THEN Fail("native")                  \* DeleteExact
                               ELSE LET cell == heap[args[1].r]  i == PosOf(cell.ks, CpsStr(args[2].s)) IN
@@ -495,6 +509,9 @@ Monotone == [][MonotoneB]_semvars
 (* one step changes at most one existing heap cell (IndexStoreLocal / PropStoreLocal / PushRemoveArePure) *)
 StoreLocalB == Cardinality({r \in 1..Len(heap) : heap'[r] # heap[r]}) <= 1
 StoreLocal == [][StoreLocalB]_semvars
+(* ReturnUnwindsToCall: a return signal is resolved in one step into the value of the nearest call (or the stray-signal error) *)
+ReturnUnwindsToCallB == (ctl.m = "sig" /\ ctl.s = "return" /\ status = "run") => ctl'.m \in {"val", "halt"}
+ReturnUnwindsToCall == [][ReturnUnwindsToCallB]_semvars
 (* output only grows *)
 OutputAppendOnlyB == /\ Len(out') >= Len(out) /\ SubSeq(out', 1, Len(out)) = out
                        /\ Len(natlog') >= Len(natlog) /\ SubSeq(natlog', 1, Len(natlog)) = natlog
